@@ -7,7 +7,7 @@ From OIDC Require Export C10_Prog C10_Handlers.
 (* warm = the same request was served once, fault-free, by the same provider instance before
    the run under test (fresh code / tokens prepared again).  The model ignores it: a handler
    has no state besides the storage, so nothing may make a failed storage call invisible. *)
-Inductive input := Req (r : router) (f : flow) (warm : bool) (p : plan).
+Inductive input := Req (r : router) (sv : storage) (f : flow) (warm : bool) (p : plan).
 
 Inductive observed :=
 | Obs (hit : bool)               (* the injected failure was reached (refstore.FaultHit) *)
@@ -17,9 +17,9 @@ Inductive observed :=
 | OPanic
 | OHang.                         (* the handler did not return within the driver's time-out *)
 
-Definition in_flow (i : input) : flow := match i with Req _ f _ _ => f end.
-Definition in_plan (i : input) : plan := match i with Req _ _ _ p => p end.
-Definition in_prog (i : input) : prog := match i with Req r f _ _ => handler r f end.
+Definition in_flow (i : input) : flow := match i with Req _ _ f _ _ => f end.
+Definition in_plan (i : input) : plan := match i with Req _ _ _ _ p => p end.
+Definition in_prog (i : input) : prog := match i with Req r sv f _ _ => handler r sv f end.
 
 Definition model (i : input) : observed :=
   let g := in_prog i in let p := in_plan i in
